@@ -466,6 +466,64 @@ fn lattice_programs(n: &Names) -> Vec<(String, Program)> {
         }
         out.push((format!("ids#{i}"), p));
     }
+    // ladders: sizes, indices, name lengths and values at the boundaries of the encodings (one byte / two bytes /
+    // 31-byte short strings / 64 and 128 bits / the field prime)
+    let ks: Vec<u64> = vec![0, 1, 254, 255, 256, 257, 65535, 65536, u32::MAX as u64, u32::MAX as u64 + 1, 1 << 63, u64::MAX];
+    let felt_ty = |id: ConcreteTypeId| TypeDeclaration { id, long_id: ConcreteTypeLongId { generic_id: GenericTypeId::from_string("felt252"), generic_args: vec![] }, declared_type_info: None };
+    for k in &ks {
+        // ids of every kind with numeric value k
+        let mut p = empty.clone();
+        p.type_declarations.push(felt_ty(ConcreteTypeId::new(*k)));
+        p.libfunc_declarations.push(LibfuncDeclaration { id: ConcreteLibfuncId::new(*k), long_id: ConcreteLibfuncLongId { generic_id: GenericLibfuncId::from_string("store_temp"), generic_args: vec![GenericArg::Type(ConcreteTypeId::new(*k))] } });
+        p.statements.push(Statement::Invocation(Invocation { libfunc_id: ConcreteLibfuncId::new(*k), args: vec![VarId::new(*k)], branches: vec![BranchInfo { target: BranchTarget::Fallthrough, results: vec![VarId::new(k.wrapping_add(1))] }] }));
+        p.statements.push(Statement::Return(vec![VarId::new(k.wrapping_add(1))]));
+        p.funcs.push(Function { id: FunctionId::new(*k), signature: FunctionSignature { param_types: vec![ConcreteTypeId::new(*k)], ret_types: vec![ConcreteTypeId::new(*k)] }, params: vec![Param { id: VarId::new(*k), ty: ConcreteTypeId::new(*k) }], entry_point: StatementIdx(0) });
+        out.push((format!("ladder:id={k}"), p));
+    }
+    for n in [0usize, 1, 2, 254, 255, 256, 257, 300] {
+        // n statements with a branch to the last one; n generic args; n params; n declarations
+        let mut p = empty.clone();
+        p.type_declarations.push(felt_ty(ConcreteTypeId::new(0)));
+        p.libfunc_declarations.push(LibfuncDeclaration { id: ConcreteLibfuncId::new(0), long_id: ConcreteLibfuncLongId { generic_id: GenericLibfuncId::from_string("gen_fn"), generic_args: (0..n).map(|i| GenericArg::Value(BigInt::from(i))).collect() } });
+        for i in 0..n {
+            p.statements.push(Statement::Invocation(Invocation { libfunc_id: ConcreteLibfuncId::new(0), args: vec![], branches: vec![BranchInfo { target: BranchTarget::Statement(StatementIdx(n - 1)), results: vec![] }, BranchInfo { target: if i % 2 == 0 { BranchTarget::Fallthrough } else { BranchTarget::Statement(StatementIdx(i / 2)) }, results: vec![] }] }));
+        }
+        p.statements.push(Statement::Return((0..n as u64).map(VarId::new).collect()));
+        p.funcs.push(Function {
+            id: FunctionId::new(0),
+            signature: FunctionSignature { param_types: vec![ConcreteTypeId::new(0); n], ret_types: vec![ConcreteTypeId::new(0); n] },
+            params: (0..n as u64).map(|i| Param { id: VarId::new(i), ty: ConcreteTypeId::new(0) }).collect(),
+            entry_point: StatementIdx(n),
+        });
+        for i in 1..n.min(300) {
+            p.type_declarations.push(felt_ty(ConcreteTypeId::new(i as u64)));
+        }
+        out.push((format!("ladder:count={n}"), p));
+    }
+    for len in [1usize, 2, 30, 31, 32, 33, 62, 63, 64, 100] {
+        let name = "n".repeat(len);
+        let mut p = empty.clone();
+        p.type_declarations.push(TypeDeclaration { id: ConcreteTypeId::from_string(name.clone()), long_id: ConcreteTypeLongId { generic_id: GenericTypeId::from_string(name.clone()), generic_args: vec![GenericArg::UserType(UserTypeId::from_string(name.clone()))] }, declared_type_info: None });
+        p.libfunc_declarations.push(LibfuncDeclaration { id: ConcreteLibfuncId::from_string(name.clone()), long_id: ConcreteLibfuncLongId { generic_id: GenericLibfuncId::from_string(name.clone()), generic_args: vec![GenericArg::UserFunc(FunctionId::from_string(name.clone()))] } });
+        p.statements.push(Statement::Return(vec![]));
+        p.funcs.push(Function { id: FunctionId::from_string(name.clone()), signature: FunctionSignature { param_types: vec![], ret_types: vec![] }, params: vec![], entry_point: StatementIdx(0) });
+        out.push((format!("ladder:name-length={len}"), p));
+    }
+    let two = BigInt::from(2);
+    let prime: BigInt = two.pow(251) + BigInt::from(17) * two.pow(192) + 1;
+    let mut vals: Vec<BigInt> = vec![prime.clone(), &prime + 1, &prime * 2, -prime.clone(), &prime - 2];
+    for k in [7u32, 8, 15, 16, 31, 32, 63, 64, 127, 128, 129, 250, 251, 252, 255, 256] {
+        for d in [-1i32, 0, 1] {
+            vals.push(two.pow(k) + d);
+            vals.push(-(two.pow(k) + d));
+        }
+    }
+    for (i, chunk) in vals.chunks(6).enumerate() {
+        let mut p = empty.clone();
+        p.type_declarations.push(TypeDeclaration { id: ConcreteTypeId::new(0), long_id: ConcreteTypeLongId { generic_id: GenericTypeId::from_string("Gen"), generic_args: chunk.iter().cloned().map(GenericArg::Value).collect() }, declared_type_info: None });
+        p.libfunc_declarations.push(LibfuncDeclaration { id: ConcreteLibfuncId::new(0), long_id: ConcreteLibfuncLongId { generic_id: GenericLibfuncId::from_string("gen_fn"), generic_args: chunk.iter().rev().cloned().map(GenericArg::Value).collect() } });
+        out.push((format!("ladder:values#{i}"), p));
+    }
     out
 }
 
@@ -607,7 +665,7 @@ fn run(ctx: &mut Ctx) {
 pub static C18: CheckDef = CheckDef {
     id: "C18",
     level: "exploration",
-    rule: "[thorough also: the Sierra generated for every corpus snippet (e2e + wrappers + hand-written + divergence family + examples/bug_samples files) under the 5 corner front-end configurations, deduplicated] [also over every compiling wrapper program of the C14 instantiation lattice (~960 quick), none of which the compiler produces] Complete pass over (a) every parseable corpus Sierra program (e2e sierra_code sections + *.sierra files; quick: <=400 statements) and the Sierra the compiler generates for examples/ (debug-name ids), and (b) a programmatically built format lattice: every GenericArg kind x 10 boundary values / 24 id spellings (numeric, 1..70 chars, containing :: <> [] @ , digits) in a type and a libfunc declaration x declared-type-info combinations; every id style x statement shape (0/1/3 branches, fallthrough/explicit, 0..3 args/results, empty return, function without params). Oracles: parse(display(s)) succeeds, display is a fixpoint, parsed program isomorphic (equal canonical shape; equal ids on the lattice); serde_json VersionedProgram round trip equal; extract_sierra_program(ContractClass::new(canon(s))) == canon(s) minus debug names; CASM text of s, canon(s), name-stripped s, text- and felt-round-tripped s byte-identical (or all rejected). distinct_nontrivial = distinct program texts.",
+    rule: "[format lattice extended by ladders: ids of every kind with numeric values at 0/1/254..257/65535/65536/2^32±/2^63/u64::MAX; programs with 0..300 statements, generic args, parameters, declarations and branch targets to the last statement; names of 1..100 characters around the 31-character short-string limit; values 2^k and 2^k±1 (k = 7..256) of both signs, P, P±1, 2P, -P] [thorough also: the Sierra generated for every corpus snippet (e2e + wrappers + hand-written + divergence family + examples/bug_samples files) under the 5 corner front-end configurations, deduplicated] [also over every compiling wrapper program of the C14 instantiation lattice (~960 quick), none of which the compiler produces] Complete pass over (a) every parseable corpus Sierra program (e2e sierra_code sections + *.sierra files; quick: <=400 statements) and the Sierra the compiler generates for examples/ (debug-name ids), and (b) a programmatically built format lattice: every GenericArg kind x 10 boundary values / 24 id spellings (numeric, 1..70 chars, containing :: <> [] @ , digits) in a type and a libfunc declaration x declared-type-info combinations; every id style x statement shape (0/1/3 branches, fallthrough/explicit, 0..3 args/results, empty return, function without params). Oracles: parse(display(s)) succeeds, display is a fixpoint, parsed program isomorphic (equal canonical shape; equal ids on the lattice); serde_json VersionedProgram round trip equal; extract_sierra_program(ContractClass::new(canon(s))) == canon(s) minus debug names; CASM text of s, canon(s), name-stripped s, text- and felt-round-tripped s byte-identical (or all rejected). distinct_nontrivial = distinct program texts.",
     assumptions: &["Program equality is id-based (debug names ignored), as defined by the crate", "lattice programs need not be valid Sierra: only serialization is exercised on them"],
     run,
     stack_mb: 16,
